@@ -307,6 +307,19 @@ pub fn generate(ctx: &mut Ctx) {
         for ch in &e { if rng.chance(1, 4) { w.push(*rng.pick(b" \t\n\r")); } w.push(*ch); }
         ctx.case(&format!("b64 dec {}", hex(&w)));
     }
+    // long objects, line-wrapped at various widths (foreign files wrap their Base64)
+    for l in [765usize, 766, 767, 768, 769, 1000, 1535, 1536, 3000, 4096] {
+        let d = rng.bytes(l);
+        let e = rpki::util::base64::Xml.encode(&d).into_bytes();
+        for width in [1usize, 3, 64, 76, 1023, 1024, 1025] {
+            let mut w = Vec::new();
+            for (i, ch) in e.iter().enumerate() {
+                if i > 0 && i % width == 0 { w.extend_from_slice(if rng.bool() { b"\n" } else { b"\r\n    " }); }
+                w.push(*ch);
+            }
+            ctx.case(&format!("b64 dec {}", hex(&w)));
+        }
+    }
     for _ in 0..n / 5 {
         let l = rng.range(0, 20) as usize;
         let t: Vec<u8> = (0..l).map(|_| *rng.pick(b"ABCDabcd0189+/= \n-_")).collect();
